@@ -178,7 +178,7 @@ def exhaustive_cases(ctx, kmax, depth_of):
 def random_cases(ctx, n):
     for i in range(n):
         clean = (i % 2 == 0)
-        size = 3 + ctx.rng.randrange(12)
+        size = 3 + ctx.rng.randrange(24)
         yield {"d": G.rand_def(ctx.rng, size, clean=clean), "clean": clean, "src": "random"}
 
 
@@ -458,7 +458,7 @@ def run(ctx, proofs):
                 "extracted resolver and the oracle. distinct_nontrivial = distinct named projections (locations removed) in which the pass "
                 "renamed at least one occurrence. Exhaustive part: every scope forest with <= %d leaves (leaf = declaration or use/assignment of "
                 "x or x_0; blocks nested to depth %s, never a block holding a single block), each realised once with a seeded choice of block "
-                "kind (plain / while / if / if-else), statement form and parameter list from %s. Random part: %d definitions, 3..14 declarations/"
+                "kind (plain / while / if / if-else), statement form and parameter list from %s. Random part: %d definitions, 3..26 declarations/"
                 "uses, names from %s, depth <= 4, functions and templates (signals, components), for loops, multiple declarators, dimension "
                 "expressions, array accesses, compound assignments, tuples and anonymous components; half of them all-initialised functions."
                 % (kmax, "3" if quick else "3 (k<=4) / 2 (k=5)", PARAMS, n_rand, G.NAMES),
